@@ -673,7 +673,12 @@ func replayViolation(runner *sym.NativeRunner, prog *sym.Program, v *sym.Violati
 	if v.Kind == "deadlock" {
 		to = 20 * time.Second // the native run is expected to hang: go test's own deadline is the oracle
 	}
-	outs, err := runner.Run(pkg, []sym.NativeCase{{Harness: v.Harness, Args: v.Args, Values: sym.ValuesOf(v.Inputs)}}, race, to)
+	sched := 0
+	if v.Threads && v.Kind == "assert" {
+		// schedule-dependent assertion: search seeded schedules under the cooperative native scheduler
+		sched = 2000
+	}
+	outs, err := runner.RunSched(pkg, []sym.NativeCase{{Harness: v.Harness, Args: v.Args, Values: sym.ValuesOf(v.Inputs)}}, race, to, sched)
 	if err != nil {
 		return false, "native run failed: " + firstLine(err.Error())
 	}
